@@ -87,7 +87,7 @@ def orders_to_dataframe(order_history: typing.List[typing.Tuple]) -> pd.DataFram
     columns = [
         "side",
         "status",
-        "arr time",
+        "arr_time",
         "end_time",
         "vol",
         "start_vol",
